@@ -33,14 +33,14 @@ EXTENDS TraceLib
 CONSTANT Slack,     \* microseconds of tolerance on "by then" bounds (generous, one-sided)
          CheckGone  \* enforce (d)
 
-VARIABLES held, holder, alive, exp, cexp, replyLost, unlockedAt, casAfter, wacq, kind, ttl, created, l
+VARIABLES held, holder, alive, exp, cexp, replyLost, unlockedAt, casAfter, wacq, kind, ttl, created, stale, l
 
 Ev == Trace[l]
-vars == <<held, holder, alive, exp, cexp, replyLost, unlockedAt, casAfter, wacq, kind, ttl, created, l>>
+vars == <<held, holder, alive, exp, cexp, replyLost, unlockedAt, casAfter, wacq, kind, ttl, created, stale, l>>
 Same(v) == UNCHANGED v
 
 Init == /\ held = FALSE /\ holder = 1 /\ alive = TRUE /\ exp = 0 /\ cexp = 0 /\ replyLost = FALSE
-        /\ unlockedAt = -1 /\ casAfter = 0 /\ wacq = FALSE /\ kind = "" /\ ttl = 0 /\ created = FALSE /\ l = 1
+        /\ unlockedAt = -1 /\ casAfter = 0 /\ wacq = FALSE /\ kind = "" /\ ttl = 0 /\ created = FALSE /\ stale = 0 /\ l = 1
 
 \* (a) applies.  It is enforced after a reply-lost renewal too: the checker then classifies the
 \* rejection by the replylost event in the history (known finding) instead of exempting it here.
@@ -48,12 +48,15 @@ Protected == held /\ alive
 
 Reset == /\ Ev.e = "reset"
          /\ held' = FALSE /\ holder' = 1 /\ alive' = TRUE /\ exp' = 0 /\ cexp' = 0 /\ replyLost' = FALSE
-         /\ unlockedAt' = -1 /\ casAfter' = 0 /\ wacq' = FALSE /\ kind' = Ev.kind /\ ttl' = Ev.ttl /\ created' = FALSE
+         /\ unlockedAt' = -1 /\ casAfter' = 0 /\ wacq' = FALSE /\ kind' = Ev.kind /\ ttl' = Ev.ttl /\ created' = FALSE /\ stale' = 0
 
 \* the caller under observation: caller 1 first; in the death scenario the waiter (caller 3) once it has
 \* acquired - it waited long for the lock, and its own lease must be in order from then on
 Acq == /\ Ev.e = "acq"
        /\ held' = TRUE /\ holder' = Ev.p /\ alive' = TRUE /\ unlockedAt' = -1 /\ casAfter' = 0
+       \* the same caller acquires again through the same Locker: the one renewal attempt of its FINISHED tenure that (c)
+       \* allows may still be armed - it will fail (the record it knew is gone) and must change nothing
+       /\ stale' = IF Ev.p = holder /\ unlockedAt >= 0 /\ casAfter = 0 THEN 1 ELSE 0
        /\ exp' = IF Ev.p = holder THEN exp ELSE cexp      \* a new holder: the expiration its own Create wrote
        /\ Same(<<cexp, replyLost, wacq, kind, ttl, created>>)
 
@@ -63,69 +66,72 @@ Create == /\ Ev.e = "create"
              ELSE /\ Protected => Ev.res # "ok"          \* nobody else creates the record while it is held
                   /\ exp' = exp /\ cexp' = IF Ev.res = "ok" THEN Ev.exp ELSE cexp
           /\ created' = (created \/ Ev.res = "ok")
-          /\ Same(<<held, holder, alive, replyLost, unlockedAt, casAfter, wacq, kind, ttl>>)
+          /\ Same(<<held, holder, alive, replyLost, unlockedAt, casAfter, wacq, kind, ttl, stale>>)
 
 Cas == /\ Ev.e = "cas" /\ Ev.p = holder
-       /\ IF Ev.res = "dead" THEN Same(<<exp, replyLost, casAfter>>)
+       /\ IF Ev.res = "dead" THEN Same(<<exp, replyLost, casAfter, stale>>)
+          ELSE IF held /\ stale = 1 /\ Ev.res \in {"conflict", "notexist"}
+          THEN \* the one attempt of this caller's finished tenure: it found nothing of its own and changed nothing
+               /\ stale' = 0 /\ Same(<<exp, replyLost, casAfter>>)
           ELSE IF held
           THEN /\ Protected => Ev.res \in {"ok", "lost", "replylost"}      \* (a): the holder's record is there
                /\ exp' = IF Ev.res \in {"ok", "replylost"} THEN Ev.exp ELSE exp
                /\ replyLost' = (replyLost \/ Ev.res = "replylost")
-               /\ casAfter' = casAfter
+               /\ casAfter' = casAfter /\ stale' = stale
           ELSE IF unlockedAt >= 0
           THEN /\ casAfter = 0                                            \* (c): at most one ...
                /\ Ev.res \in {"conflict", "notexist"}                      \* ... and it changes nothing
-               /\ casAfter' = 1 /\ Same(<<exp, replyLost>>)
+               /\ casAfter' = 1 /\ Same(<<exp, replyLost, stale>>)
           ELSE \* between rel and unlocked: a renewal in flight may still succeed or fail
-               Same(<<exp, replyLost, casAfter>>)
+               Same(<<exp, replyLost, casAfter, stale>>)
        /\ Same(<<held, holder, alive, cexp, unlockedAt, wacq, kind, ttl, created>>)
 
 \* renewal calls of a caller that is not (any more) the one under observation (a dead process's calls never
 \* reach the store; a party that acquired but is not observed as holder renews its own record)
 CasOther == /\ Ev.e = "cas" /\ Ev.p # holder
-            /\ Same(<<held, holder, alive, exp, cexp, replyLost, unlockedAt, casAfter, wacq, kind, ttl, created>>)
+            /\ Same(<<held, holder, alive, exp, cexp, replyLost, unlockedAt, casAfter, wacq, kind, ttl, created, stale>>)
 
-Del == /\ Ev.e = "del" /\ Same(<<held, holder, alive, exp, cexp, replyLost, unlockedAt, casAfter, wacq, kind, ttl, created>>)
+Del == /\ Ev.e = "del" /\ Same(<<held, holder, alive, exp, cexp, replyLost, unlockedAt, casAfter, wacq, kind, ttl, created, stale>>)
 
 Probe == /\ Ev.e = "probe"
          /\ Protected => Ev.present                                                   \* (a)
          /\ (~alive /\ ~wacq /\ Ev.t > exp + Slack) => ~Ev.present                     \* (b)
          /\ (CheckGone /\ ~held /\ unlockedAt >= 0 /\ ~created) => ~Ev.present         \* (d)
-         /\ Same(<<held, holder, alive, exp, cexp, replyLost, unlockedAt, casAfter, wacq, kind, ttl, created>>)
+         /\ Same(<<held, holder, alive, exp, cexp, replyLost, unlockedAt, casAfter, wacq, kind, ttl, created, stale>>)
 
 Try == /\ Ev.e = "try"
        /\ Protected => ~Ev.ok                                                          \* (a)
-       /\ Same(<<held, holder, alive, exp, cexp, replyLost, unlockedAt, casAfter, wacq, kind, ttl, created>>)
+       /\ Same(<<held, holder, alive, exp, cexp, replyLost, unlockedAt, casAfter, wacq, kind, ttl, created, stale>>)
 
 Rel == /\ Ev.e = "rel"
        /\ held' = IF Ev.p = holder THEN FALSE ELSE held
        \* (d) counts creations from here on: until the holder's Delete reaches the store nobody else can create
        /\ created' = IF Ev.p = holder THEN FALSE ELSE created
-       /\ Same(<<holder, alive, exp, cexp, replyLost, unlockedAt, casAfter, wacq, kind, ttl>>)
+       /\ Same(<<holder, alive, exp, cexp, replyLost, unlockedAt, casAfter, wacq, kind, ttl, stale>>)
 
 Unlocked == /\ Ev.e = "unlocked"
             /\ unlockedAt' = IF Ev.p = holder THEN Ev.t ELSE unlockedAt
-            /\ Same(<<held, holder, alive, exp, cexp, replyLost, casAfter, wacq, kind, ttl, created>>)
+            /\ Same(<<held, holder, alive, exp, cexp, replyLost, casAfter, wacq, kind, ttl, created, stale>>)
 
 Die == /\ Ev.e = "die" /\ alive' = FALSE
-       /\ Same(<<held, holder, exp, cexp, replyLost, unlockedAt, casAfter, wacq, kind, ttl, created>>)
+       /\ Same(<<held, holder, exp, cexp, replyLost, unlockedAt, casAfter, wacq, kind, ttl, created, stale>>)
 
 WAcq == /\ Ev.e = "wacq"
         /\ ~Protected                                   \* (a): not while a live holder holds
         /\ ~alive => Ev.t <= exp + Slack                \* (b): promptly after the lease ran out
         /\ wacq' = TRUE
-        /\ Same(<<held, holder, alive, exp, cexp, replyLost, unlockedAt, casAfter, kind, ttl, created>>)
+        /\ Same(<<held, holder, alive, exp, cexp, replyLost, unlockedAt, casAfter, kind, ttl, created, stale>>)
 
 \* after everything was released the lock is free: the contender's TryLock succeeds (no record was left behind
 \* or kept alive by a renewal of a finished tenure).  A failed re-acquisition through the released Locker
 \* (reacqfail) is never consumable.
 FreeTry == /\ Ev.e = "freetry" /\ Ev.ok
-           /\ Same(<<held, holder, alive, exp, cexp, replyLost, unlockedAt, casAfter, wacq, kind, ttl, created>>)
+           /\ Same(<<held, holder, alive, exp, cexp, replyLost, unlockedAt, casAfter, wacq, kind, ttl, created, stale>>)
 
 \* the waiter giving up after the holder died is (b) violated: never consumable
 End == /\ Ev.e = "end"
        /\ (kind = "death") => wacq
-       /\ Same(<<held, holder, alive, exp, cexp, replyLost, unlockedAt, casAfter, wacq, kind, ttl, created>>)
+       /\ Same(<<held, holder, alive, exp, cexp, replyLost, unlockedAt, casAfter, wacq, kind, ttl, created, stale>>)
 
 Next == /\ l <= Len(Trace) /\ l' = l + 1
         /\ \/ Reset \/ Acq \/ Create \/ Cas \/ CasOther \/ Del \/ Probe \/ Try \/ FreeTry \/ Rel \/ Unlocked \/ Die \/ WAcq \/ End
